@@ -1,0 +1,58 @@
+//go:build verif
+
+package hsms
+
+import "github.com/puzpuzpuz/xsync/v3"
+
+// Read-only verification hooks for the send/reply routing core (properties C06 / C20 / C09).
+// Add-only: nothing here is compiled without the `verif` build tag.
+
+// VerifRouterState is a snapshot of router-internal state that has no public getter.
+type VerifRouterState struct {
+	SysBytesDraws uint32 // value of the per-connection system-bytes counter (= number of draws, mod 2^32)
+	HasEpoch      bool
+	RegistrySize  int  // entries in the CURRENT generation's reply registry
+	EpochDone     bool // current generation's ctx cancelled
+	ConnLive      bool // current generation's socket is set
+	QueueLen      int  // frames sitting in the current generation's async send channel
+	AsyncSendErr  uint64
+	RegistryKeys  []uint32 // system bytes currently registered in the current generation
+}
+
+// VerifRouterSnapshot reads the state of c (which must be the core connection returned by NewConnection).
+func VerifRouterSnapshot(c Connection) (VerifRouterState, bool) {
+	cc, ok := c.(*connection)
+	if !ok {
+		return VerifRouterState{}, false
+	}
+	st := VerifRouterState{SysBytesDraws: cc.sysGen.n.Load(), AsyncSendErr: cc.metrics.AsyncSendErrCount()}
+	if e := cc.cur.Load(); e != nil {
+		st.HasEpoch = true
+		st.RegistrySize = e.replies.len()
+		st.RegistryKeys = verifRegistryKeys(e.replies.m)
+		st.EpochDone = e.ctx.Err() != nil
+		st.ConnLive = e.liveConn() != nil
+		st.QueueLen = len(e.sendCh)
+	}
+	return st, true
+}
+
+// verifRegistryKeys lists the registered system bytes whatever the registry's value type is.
+func verifRegistryKeys[V any](m *xsync.MapOf[[4]byte, V]) []uint32 {
+	var keys []uint32
+	m.Range(func(k [4]byte, _ V) bool {
+		keys = append(keys, uint32(k[0])<<24|uint32(k[1])<<16|uint32(k[2])<<8|uint32(k[3]))
+		return true
+	})
+	return keys
+}
+
+// VerifIsSecondaryReply exposes the registry-offer discriminator on raw header bits.
+func VerifIsSecondaryReply(waitBit bool, function byte) bool {
+	h := [10]byte{}
+	if waitBit {
+		h[2] = 0x80
+	}
+	h[3] = function
+	return isSecondaryReply(newRawFrameDataMessage(h, nil))
+}
